@@ -87,7 +87,39 @@ def pattern_bytes(n, salt=0):
     return bytearray((unit * (n // 256 + 1))[:n])
 
 
-def random_args(cmd, rng, cap=S.CAP):
+def novel_products(cmd, rng, cap=S.CAP, limit=1500):
+    """arguments in which up to three fields at once take integer literals that the library's source has and the recorded
+    baseline (vmon/srcdict.py) has not, the rest random: a trigger written as `a == X and b == Y and c == Z` is hit although a
+    uniform draw never would. Nothing on the unchanged tree."""
+    import itertools
+
+    from vmon import srcdict
+
+    nv = srcdict.novel_exact()
+    if not nv:
+        return
+    per = {}
+    for name, (kind, width, d) in cmd.args.items():
+        if kind in ("u", "alloc", "tl", "cdtl"):
+            vals = [v for v in nv if 0 <= v < (1 << width)]
+            if vals:
+                per[name] = vals if len(vals) <= 6 else rng.sample(vals, 6)
+    names = sorted(per)
+    combos = []
+    for k in (1, 2, 3):
+        for sub in itertools.combinations(names, k):
+            for vals in itertools.product(*(per[n] for n in sub)):
+                combos.append(dict(zip(sub, vals)))
+    if len(combos) > limit:
+        combos = rng.sample(combos, limit)
+    for force in combos:
+        for _rep in range(2):
+            a = random_args(cmd, rng, cap=cap, force=force)
+            if all(a.get(k) == v for k, v in force.items()):
+                yield a
+
+
+def random_args(cmd, rng, cap=S.CAP, force=None):
     a = {}
     for name, (kind, width, d) in cmd.args.items():
         if kind == "bs":
@@ -102,7 +134,10 @@ def random_args(cmd, rng, cap=S.CAP):
             unit = {"alloc": 1, "tl": a.get("blocksize") or 1, "cdtl": 3072}[kind]
             hi = min((1 << width) - 1, cap // unit)
             r = rng.random()
-            if r < 0.2:
+            sv = gen.source_value(rng, width, hi=hi)
+            if sv is not None:
+                a[name] = sv
+            elif r < 0.2:
                 a[name] = rng.choice(_cap_values(gen.boundary(width), unit, cap))
             else:
                 a[name] = rng.randint(0, hi)
@@ -110,6 +145,13 @@ def random_args(cmd, rng, cap=S.CAP):
             a[name] = rng.choice([None, 0, 1, 7, 64])
         elif kind == "atadata":
             a[name] = None
+    for name, v in (force or {}).items():
+        kind, width, d = cmd.args[name]
+        if kind in ("alloc", "tl", "cdtl"):
+            unit = {"alloc": 1, "tl": a.get("blocksize") or 1, "cdtl": 3072}[kind]
+            if v > cap // unit:
+                continue  # (a transfer the harness has no buffer for)
+        a[name] = v
     if cmd.xfer == "ata":
         _ata_clip(cmd, a, cap)
     return fill_derived(cmd, a, rng)
